@@ -1028,7 +1028,7 @@ COLS = ["label", "hint", "guidance_hint", "relevant", "required", "read_only", "
         "appearance", "parameters", "choice_filter", "repeat_count", "image", "audio", "video", "big-image", "media::image", "label::en", "label::fr (fr)", "hint::en",
         "save_to", "intent", "body::x", "bind::y", "bind::jr:z", "instance::w", "no_app_error_string", "autoplay", "body::accuracyThreshold", "bind::type", "bind::relevant",
         "control", "bind", "label::", "::en", "media::big-image::en", "image::en", "disabled", "query", "sms_field", "sms_option", "list_name", "name::en", "type::x", "note",
-        "body::", "bind::", "instance::", "label:en", "jr:count", "required message", "bind: required", "bind:jr:constraintMsg", "constraint-msg"]
+        "body::", "bind::", "instance::", "label:en", "label:jr", "hint:jr:x", "bind::nodeset", "bind::tag", "body::ref", "body::nodeset", "instance::jr:template", "bind::toParseString", "jr:count", "required message", "bind: required", "bind:jr:constraintMsg", "constraint-msg"]
 
 
 def subst(s, rng, f):
